@@ -108,6 +108,11 @@ class VSym:
     def expr(self, node, env, guards):
         if isinstance(node, ast.Constant):
             return self.const(node.value)
+        ab = getattr(self, "abstract", None)
+        if ab and not isinstance(node, (ast.Name, ast.Attribute)):
+            key = ast.unparse(node)
+            if key in ab:             # an aggregate outside the fragment (a method call building an array): an input of the translation
+                return Val(lean_ident(ab[key][0]), ab[key][1])
         name = dotted(node)
         if name is not None:
             if name in env:
@@ -661,6 +666,21 @@ TARGETS += [_trad_stat("trad_mean_fn_frequency", "mean_fn_frequency"), _trad_sta
             _trad_stat("trad_mean_fn_amplitude", "mean_fn_amplitude"), _trad_stat("trad_std_fn_amplitude", "std_fn_amplitude")]
 
 
+def _az_stat(name, method):
+    which = "frequencies" if "frequency" in method else "amplitudes"
+    return dict(name=name, file="hvsrpy/hvsr_azimuthal.py", cls="HvsrAzimuthal", func=method, tables=["DISTRIBUTION_MAP"], args=["self", "distribution"],
+                abstract={"self._compute_statistical_weights()": ("weights", "v"), f"np.array(_flatten_list(self.peak_{which}))": ("values", "v")},
+                params=[("distribution", "str"), ("values", "v"), ("weights", "v")], vgroup="Vec",
+                # how harness/pyvalidate.py feeds the abstract inputs to the REAL method: a subclass whose helper method / property return them
+                stubs={"_compute_statistical_weights": ("call", "weights"), f"peak_{which}": ("list", "values")})
+
+
+# the accessor layer of HvsrAzimuthal (C11): the pooled peak values and the Cheng weights are inputs; WHICH estimator, WHICH denominator and that the
+# weights are handed over is what the translation fixes
+TARGETS += [_az_stat("az_mean_fn_frequency", "mean_fn_frequency"), _az_stat("az_std_fn_frequency", "std_fn_frequency"),
+            _az_stat("az_mean_fn_amplitude", "mean_fn_amplitude"), _az_stat("az_std_fn_amplitude", "std_fn_amplitude")]
+
+
 # weighted mean / standard deviation of Monte-Carlo realisations (C14): two loops over zip(values, norm_weights) with accumulators
 TARGETS += [dict(name="spatial_statistics", vgroup="VecSpatial", file="hvsrpy/hvsr_spatial.py", func="_statistics", tables=[], args=["values", "weights"],
                  params=[("values", "m"), ("weights", "v")], returns="pair", sqrt_nan=True)]
@@ -676,6 +696,7 @@ def translate(repo, spec):
             tree = ast.parse(f.read())
         sym = VSym(tree, spec["tables"], repo=repo, file=spec["file"], cls=spec.get("cls"))
         sym.sqrt_nan = bool(spec.get("sqrt_nan"))
+        sym.abstract = spec.get("abstract")
         if spec.get("cls"):
             c = sym.class_node()
             fn = next((m for m in (c.body if c else []) if isinstance(m, ast.FunctionDef) and m.name == spec["func"]), None)
